@@ -33,7 +33,7 @@ def definition(s3):
         for y in range(x + 1, len(cent)):
             (i, ci), (j, cj) = cent[x], cent[y]
             d = float(np.linalg.norm(ci - cj))
-            ni, nj = R[i].base_normal_vector, R[j].base_normal_vector
+            ni, nj = T.base_normal(R[i]), T.base_normal(R[j])
             if ni is None or nj is None:
                 continue
             if abs(d - 6.0) < 1e-6:
